@@ -178,3 +178,31 @@ class ControllerNode:
             tuple(sorted((a, tuple(v)) for a, v in self.shm_arrays(app_id).items())),
             tuple(self.unit_module(app_id)),
         )
+
+
+class LivenessWatch:
+    """Bounded liveness without a total-step budget: a run is stuck when nothing *progresses* (no instruction
+    completes on any controller, no response is delivered, the host issues nothing) for `window` consecutive
+    scheduler steps -- only wait polls and retry timers fire -- and it does not terminate when it is still
+    progressing after `hard` steps.  A long but healthy run (many re-tries, slow link) trips neither."""
+
+    def __init__(self, sched: Any, nodes: List[Any], link: Any = None, window: int = 6000, hard: int = 400000):
+        self.sched = sched
+        self.nodes = nodes
+        self.link = link
+        self.window = window
+        self.hard = hard
+        self.extra = 0            # bumped by the harness for host-side progress
+        self._last_val = -1
+        self._last_step = 0
+
+    def verdict(self) -> Optional[str]:
+        val = sum(n.env.instr_done for n in self.nodes) + (len(self.link.delivered) if self.link is not None else 0) + self.extra
+        if val != self._last_val:
+            self._last_val = val
+            self._last_step = self.sched.steps
+        if self.sched.steps - self._last_step > self.window:
+            return "no-progress"
+        if self.sched.steps > self.hard:
+            return "does-not-terminate"
+        return None
